@@ -143,13 +143,63 @@ async def _run(unsup, history, via, sources=None, reconnects=()):
     return outs
 
 
+async def _run_setup(unanswered, later):
+    """A REAL set-up: the first sensor-data message carries its genuine frame-version table (several set-up kinds are announced in
+    it), EcoMAX.async_setup() runs against a controller that answers every set-up request except the kinds in `unanswered`;
+    once the device is loaded the announcements `later` arrive (sensor-data frames).  Returns [frame_errors, kinds queued per
+    later announcement]."""
+    from pyplumio.devices.ecomax import EcoMAX
+    from pyplumio.frames.messages import SensorDataMessage
+    from pyplumio.structures.network_info import NetworkInfo
+    from harness.c16 import _payload, responses
+    q = asyncio.Queue()
+    dev = EcoMAX(q, network=NetworkInfo())
+    sensor = _payload("messages/sensor_data.json", "short_sensor_data_without_thermostats")
+    rest = sensor[1 + 3 * sensor[0]:]
+    resp = responses(False)
+
+    async def controller():
+        while True:
+            fr = await q.get()
+            code = int(fr.frame_type)
+            if code in resp and code not in unanswered:
+                cls, payload = resp[code]
+                dev.handle_frame(cls(message=bytearray(payload)))
+
+    ctl = asyncio.ensure_future(controller())
+    setup = asyncio.ensure_future(dev.async_setup())
+    dev.handle_frame(SensorDataMessage(message=bytearray(sensor)))
+    await asyncio.wait_for(setup, timeout=1000)
+    for _ in range(10):
+        await asyncio.sleep(0)
+    ctl.cancel()
+    await asyncio.gather(ctl, return_exceptions=True)
+    while not q.empty():
+        q.get_nowait()
+    errors = sorted(int(e) for e in dev.data.get("frame_errors", []))
+    outs = []
+    for ann in later:
+        table = bytes([len(ann)]) + b"".join(bytes([c, v & 0xFF, v >> 8]) for c, v in ann)
+        dev.handle_frame(SensorDataMessage(message=bytearray(table + rest)))
+        for _ in range(20):          # (handlers that wait for data a kind left unanswered never finish: no waiting for tasks here)
+            await asyncio.sleep(0)
+        o = []
+        while not q.empty():
+            o.append(int(q.get_nowait().frame_type))
+        outs.append(o)
+    for t in list(dev.tasks):
+        t.cancel()
+    await asyncio.gather(*dev.tasks, return_exceptions=True)
+    return [errors, outs]
+
+
 class C15(Prop):
     id = "C15"
     prop_file = "Props/C15.v"
     rule = ("histories of 1-6 announcements over the known request kinds plus unknown codes with repeated / raised / lowered versions and "
             "duplicate codes inside one table, on devices with every kind of unsupported set (none, one, several, all); delivered as the "
             "frame_versions event, inside real sensor-data frames through handle_frame, and as sensor-data and regulator-data messages alternating "
-            "(a third of those replaying an earlier sensor-data message verbatim after a regulator-data announcement; half of them with the connection lost and re-established - connected=False / True told to the same device object - between announcements).  Non-trivial = at least one "
+            "(a third of those replaying an earlier sensor-data message verbatim after a regulator-data announcement; half of them with the connection lost and re-established - connected=False / True told to the same device object - between announcements); `with-setup`: the unanswered kinds come from a real async_setup() against a scripted controller, started by a sensor-data message with its genuine version table, and later announcements are judged by the history model.  Non-trivial = at least one "
             "refresh expected; distinct by (unsupported, history).")
     assumptions = ["announcements naming a known response/message kind make the handler raise TypeError (observation O1): outside the "
                    "property's quantifier, generated separately and compared with the model only"]
@@ -209,6 +259,8 @@ class C15(Prop):
         return cases
 
     def run_impl(self, c):
+        if c["kind"] == "with-setup":
+            return self._setup_run(c)
         if c["kind"] == "two-devices":
             return vloop.run(_run_two, c["unsup"], c["history"], c["who"])
         if "hist" in c:
@@ -224,6 +276,8 @@ class C15(Prop):
         return [[a for a, w in zip(c["history"], c["who"]) if w == k] for k in (0, 1)]
 
     def model_many(self, cases):
+        if cases and all(c["kind"] == "with-setup" for c in cases):
+            return [None] * len(cases)
         two = [c for c in cases if c["kind"] == "two-devices"]
         if two:
             rest = [c for c in cases if c["kind"] != "two-devices"]
@@ -240,6 +294,8 @@ class C15(Prop):
         return [next(rb) if "hist" in c else next(ra)[0] for c in cases]
 
     def spec_many(self, cases, behaviours):
+        if cases and all(c["kind"] == "with-setup" for c in cases):
+            return [self._setup_ok(c, b) for c, b in zip(cases, behaviours)]
         two = [(c, b) for c, b in zip(cases, behaviours) if c["kind"] == "two-devices"]
         if two:
             rest = [(c, b) for c, b in zip(cases, behaviours) if c["kind"] != "two-devices"]
@@ -265,6 +321,54 @@ class C15(Prop):
         ra = iter(model.call_many("P15", [[bytes(c["unsup"]), c["history"], clean(b)] for c, b in a]))
         rh = iter(model.call_many("P15h", [[self._h(c), clean(b)] for c, b in h]))
         return [bool(next(rh) if "hist" in c else next(ra)) and not x for c, x in zip(cases, bad)]
+
+    # ---- the unanswered kinds come from a REAL set-up (not from a frame_errors event of the harness) ----
+    def _setup_case(self, rng):
+        from harness.c16 import _payload
+        t = G.tables()
+        setup_kinds = [k for k, _ in t["setup_frames"]]
+        sensor = _payload("messages/sensor_data.json", "short_sensor_data_without_thermostats")
+        first = [[sensor[1 + 3 * i], sensor[2 + 3 * i] | (sensor[3 + 3 * i] << 8)] for i in range(sensor[0])]
+        unanswered = sorted(rng.sample(setup_kinds, rng.choice([0, 1, 1, 2, 3])))
+        vers = {c: v for c, v in first}
+        pool = sorted(set(setup_kinds + [c for c, _ in first]))
+        later = []
+        for _ in range(rng.randrange(1, 4)):
+            ann = []
+            for c in rng.sample(pool, rng.randrange(1, min(5, len(pool)) + 1)):
+                if rng.random() < 0.6:
+                    vers[c] = (vers.get(c, 0) + 1) % 65536
+                ann.append([c, vers.get(c, 0)])
+            later.append(ann)
+        return {"kind": "with-setup", "first": first, "unanswered": unanswered, "later": later}
+
+    def _setup_run(self, c):
+        return vloop.run(_run_setup, c["unanswered"], c["later"])
+
+    def _setup_ok(self, c, b):
+        errors, outs = b
+        # the kinds a set-up leaves unanswered, by the set-up model of C16 (a kind that needs the product information fails with it)
+        kinds = [k for k, _ in G.tables()["setup_frames"]]
+        failed = sorted(model.call("timeline", [False, [[k, ([] if k in c["unanswered"] else [1])] for k in kinds], 3])[0])
+        hist = [[0, c["first"]], [1, bytes(failed)]] + [[0, a] for a in c["later"]]
+        m = model.call("announce_hist", hist)
+        want = [list(x) for x in m[2:]]
+        return errors == failed and [list(o) for o in outs] == want
+
+    def extra_checks(self, tier, rng):
+        fails = []
+        self._setup_runs = 0
+        for _ in range(60 if tier == "quick" else 1200):
+            c = self._setup_case(rng)
+            b = self._setup_run(c)
+            self._setup_runs += 1
+            if not self._setup_ok(c, b):
+                fails.append({"case": c, "impl": b, "reason": "after a real set-up the kinds it left unanswered are not exactly the ones never "
+                              "refreshed (or frame_errors does not list exactly them)"})
+        return fails
+
+    def extra_coverage(self):
+        return {"real_setup_sessions": getattr(self, "_setup_runs", 0)}
 
     def nontrivial_key(self, c, mb):
         return repr(c) if any(mb) else None
